@@ -62,10 +62,18 @@ func (w *World) Converge(ns, name string, pendingChanges int) ConvergeResult {
 		return res
 	}
 	releasedHold := ""
+	releasedBy := "annotation-removed"
 	for _, k := range []string{v1.ExtendedDaemonSetRollingUpdatePausedAnnotationKey, v1.ExtendedDaemonSetRolloutFrozenAnnotationKey} {
 		if val, ok := e.Annotations[k]; ok {
 			if val == "true" {
 				releasedHold += k[strings.LastIndex(k, "/")+1:] + " "
+			}
+			// half of the releases go through the real command (which writes "false"); it refuses while a
+			// canary is active, in which case the annotation is removed by hand
+			cmd := map[string]string{v1.ExtendedDaemonSetRollingUpdatePausedAnnotationKey: "unpause-rolling-update", v1.ExtendedDaemonSetRolloutFrozenAnnotationKey: "unfreeze-rollout"}[k]
+			if val == "true" && w.R.Intn(2) == 0 && w.Kubectl(cmd, ns, name) == nil {
+				releasedBy = "command"
+				continue
 			}
 			w.Annotate(ns, name, k, "")
 		}
@@ -211,8 +219,13 @@ func (w *World) Converge(ns, name string, pendingChanges int) ConvergeResult {
 		}
 		if releasedHold != "" {
 			// C08: "a rolling update resumes once its annotation is removed or set to false"
-			w.Mon.viol("C08", "C08.resumes-after-release", map[string]string{"released": strings.TrimSpace(releasedHold), "how": "annotation-removed", "why": classify(why)}, nil,
+			w.Mon.viol("C08", "C08.resumes-after-release", map[string]string{"released": strings.TrimSpace(releasedHold), "how": releasedBy, "why": classify(why)}, nil,
 				map[string]any{"bound": res.Bound, "rounds": res.Rounds, "live": live, "why": why, "pods": w.podSummary(ns, name), "state": string(kit.GetEDS(w.S, ns, name).Status.State)})
+			if releasedBy == "command" {
+				// C19: the controllers' next reconciles obey the unpause / unfreeze the command wrote
+				w.Mon.viol("C19", "C19.release-command-obeyed", map[string]string{"released": strings.TrimSpace(releasedHold), "why": classify(why)}, nil,
+					map[string]any{"bound": res.Bound, "rounds": res.Rounds, "live": live, "why": why, "pods": w.podSummary(ns, name)})
+			}
 		}
 		return res
 	}
